@@ -30,6 +30,7 @@ def main (args : List String) : IO UInt32 := do
   let stdin ← IO.getStdin
   let stdout ← IO.getStdout
   match args with
+  | ["numpos"] => loop stdin stdout Engine.Num.posAnswer; return 0
   | ["num"] => loop stdin stdout numLine; return 0
   | ["units"] => loop stdin stdout Engine.Units.answer; return 0
   | ["equiv"] => loop stdin stdout Engine.Equiv.answer; return 0
